@@ -44,9 +44,11 @@ DoApiTxn ==
                    IN  /\ Chk(Ev.nops = Len(ops), "C03", "the model API produced another number of operations than the call stands for",
                               [call |-> CallKey(Ev.call), got |-> Ev.nops, want |-> Len(ops)])
                        /\ CheckTxn(e, db)
-                       \* (the engine checks dangling references before it collects unreferenced rows: a rejection of
-                       \* that kind is the engine's known over-rejection, not the API's doing)
-                       /\ Chk(~(r.ok /\ ~Ev.committed /\ Ev.errKind # "refs"), "C03",
+                       \* (a rejection by the commit-time checks - every operation had succeeded - is the engine's
+                       \* over-rejection, tolerated as everywhere in the transaction family: dangling references are
+                       \* checked before unreferenced rows are collected, pruning a weak reference in an immutable
+                       \* column counts as a change; what the API can get wrong shows in an operation)
+                       /\ Chk(~(r.ok /\ ~Ev.committed /\ Ev.errIdx <= Ev.nops), "C03",
                               "the transaction the model API built fails although what the call stands for commits",
                               [call |-> CallKey(Ev.call), errIdx |-> Ev.errIdx, errKind |-> Ev.errKind, commitErr |-> Ev.commitErr])
     /\ dbs' = [dbs EXCEPT ![Ev.db] = DbJ(Ev.post)]
